@@ -20,6 +20,9 @@ class UnitsParser(object):
         self.debug = debug
 
     def isnumber(self, what):
+        if what.isalpha():
+            # 'nan', 'inf', 'infinity' are names, not numbers
+            return False
         try:
             float(what)
             return True
